@@ -1,12 +1,27 @@
 import SeqVerif.Base.Proto
 import SeqVerif.Model.Chunking
 import SeqVerif.Model.FetchIDs
+import SeqVerif.Model.FetchIndex
+import SeqVerif.Model.FetchDocs
+import SeqVerif.Model.FetchFracs
+import SeqVerif.Model.FetchBytes
 /-!
 Driver for C04.  Requests (ids are `mid:rid`, lists comma separated, `-` = empty):
-  `chunksize <maxFetch> <lens> <prev>`        -> `ok <n>`                 (docsStream.calcChunkSize, repaired form)
-  `chunksize.old <maxFetch> <lens> <prev>`    -> `ok <n>` | `panic div0`  (the form before the repair)
-  `findlids <table> <ids>`                    -> `ok <lids>` | `panic`    (sealedFetchIndex.findLIDs, repaired form)
+  `chunksize <maxFetch> <lens> <prev>`        -> `ok <n>`                 docsStream.calcChunkSize (repaired form)
+  `chunksize.old <maxFetch> <lens> <prev>`    -> `ok <n>` | `panic div0`  the form before the repair
+  `findlids <table> <ids>`                    -> `ok <lids>` | `panic`    sealedFetchIndex.findLIDs (repaired form)
   `findlids.old <table> <ids>`                -> `ok <lids>` | `panic`
+  `lessorequal <cap> <table> <minBlockIDs> <lid> <id>` -> `ok <0|1>`      sealedIDsIndex.LessOrEqual
+  `docpos.pack <bits> <block> <off>`          -> `ok <pos>`               seq.PackDocPos
+  `docpos.unpack <bits> <pos>`                -> `ok <block> <off>`       DocPos.Unpack
+  `groupoffsets <bits> <positions>`           -> `ok <block>/<offs +>/<idx +>;...`   seq.GroupDocsOffsets
+  `extract <block hex> <offsets>`             -> `ok <doc hex>,...`       extractDocsFromBlockFunc
+  `groupids <fracs> <ids>`                    -> `ok <name>=<ids>;...` | `panic`     fracmanager.groupIDsByFraction
+        frac = `<name>/<isect lo:hi:0|1>/<contains mid=0|1 +>` (the fraction's answers are oracle arguments),
+        id = `mid:rid:hint` (hint = fraction name or `-`)
+  `fetchdocs <bits> <fracs> <ids>`            -> `ok <name>.<block>.<off>|-,...` | `err` | `crash`   Fetcher.FetchDocs
+        frac = `<name>/<isect>/<contains>/<S|A>/<entries mid:rid:pos +>`; S: entries are the ID table in LID order
+        (entry 0 = system ID), A: the position map
 -/
 open SV SV.Proto SV.Fetch
 
@@ -17,9 +32,64 @@ def parseID (s : String) : Option ID :=
 
 def parseIDs (s : String) : Option (List ID) := (splitList s).mapM parseID
 
+def parseIDS (s : String) : Option IDS :=
+  match s.splitOn ":" with
+  | [a, b, h] => do
+    let hint ← if h = "-" then some none else h.toNat?.map some
+    pure ⟨⟨(← a.toNat?), (← b.toNat?)⟩, hint⟩
+  | _ => none
+
 def fmtOptNats : Option (List Nat) → String
   | some l => s!"ok {fmtNats l}"
   | none => "panic"
+
+def fmtID (i : ID) : String := s!"{i.mid}:{i.rid}"
+
+/-- `mid=0|1+...` -> lookup table, unknown timestamps answer true -/
+def parseContains (s : String) : Option (Nat → Bool) := do
+  let es ← (splitList s "+").mapM fun e =>
+    match e.splitOn "=" with
+    | [m, v] => do pure ((← m.toNat?), (← bool? v))
+    | _ => none
+  pure fun mid => match es.find? (fun e => e.1 = mid) with
+    | some e => e.2
+    | none => true
+
+def parseIsect (s : String) : Option (Nat → Nat → Bool) :=
+  match s.splitOn ":" with
+  | [lo, hi, v] => do
+    let lo ← lo.toNat?
+    let hi ← hi.toNat?
+    let v ← bool? v
+    pure fun a b => if a = lo ∧ b = hi then v else true
+  | _ => none
+
+abbrev Tok := Nat × Nat × Nat
+
+def parseEntries (s : String) : Option (List (ID × Nat)) :=
+  (splitList s "+").mapM fun e =>
+    match e.splitOn ":" with
+    | [m, r, p] => do pure (⟨(← m.toNat?), (← r.toNat?)⟩, (← p.toNat?))
+    | _ => none
+
+def parseFrac (full : Bool) (s : String) : Option (Frac Tok) :=
+  match s.splitOn "/", full with
+  | [name, isect, cont], false => do
+    let name ← name.toNat?
+    pure ⟨name, (← parseContains cont), (← parseIsect isect), fun ids => some (ids.map fun _ => notFound), fun b o => (name, b, o)⟩
+  | [name, isect, cont, kind, entries], true => do
+    let name ← name.toNat?
+    let es ← parseEntries entries
+    let rd : Nat → Nat → Tok := fun b o => (name, b, o)
+    if kind = "S" then
+      pure (sealedFrac name (← parseContains cont) (← parseIsect isect) (es.map (·.1)) (es.map (·.2)) rd)
+    else if kind = "A" then
+      pure (activeFrac name (← parseContains cont) (← parseIsect isect) es rd)
+    else none
+  | _, _ => none
+
+def fmtGroup (g : Group) : String :=
+  s!"{g.block}/{fmtList toString g.offsets "+"}/{fmtList toString g.index "+"}"
 
 def step (line : String) : String :=
   match fields line with
@@ -42,6 +112,44 @@ def step (line : String) : String :=
     match parseIDs t, parseIDs ids with
     | some t, some ids => fmtOptNats (findLIDs t ids)
     | _, _ => "bad-op"
+  | ["lessorequal", cap, t, mins, lid, id] =>
+    match cap.toNat?, parseIDs t, parseIDs mins, lid.toNat?, parseID id with
+    | some cap, some t, some mins, some lid, some id => s!"ok {fmtBool (lessOrEqualBlk cap mins t lid id)}"
+    | _, _, _, _, _ => "bad-op"
+  | ["docpos.pack", bits, b, o] =>
+    match bits.toNat?, b.toNat?, o.toNat? with
+    | some bits, some b, some o => s!"ok {packDocPos bits b o}"
+    | _, _, _ => "bad-op"
+  | ["docpos.unpack", bits, p] =>
+    match bits.toNat?, p.toNat? with
+    | some bits, some p => s!"ok {(unpackDocPos bits p).1} {(unpackDocPos bits p).2}"
+    | _, _ => "bad-op"
+  | ["groupoffsets", bits, ps] =>
+    match bits.toNat?, natList? ps with
+    | some bits, some ps => s!"ok {fmtList fmtGroup (groupDocsOffsets bits ps) ";"}"
+    | _, _ => "bad-op"
+  | ["extract", blk, offs] =>
+    match hex? blk, natList? offs with
+    | some blk, some offs => s!"ok {fmtList fmtHex (extractDocs blk offs)}"
+    | _, _ => "bad-op"
+  | ["groupids", fracs, ids] =>
+    match (splitList fracs ";").mapM (parseFrac false), (splitList ids).mapM parseIDS with
+    | some fracs, some ids =>
+      match groupIDsByFraction fracs ids with
+      | none => "panic"
+      | some gs => s!"ok {fmtList (fun (g : Frac Tok × List ID) => s!"{g.1.name}={fmtList fmtID g.2}") gs ";"}"
+    | _, _ => "bad-op"
+  | ["fetchdocs", bits, fracs, ids] =>
+    match bits.toNat?, (splitList fracs ";").mapM (parseFrac true), (splitList ids).mapM parseIDS with
+    | some bits, some fracs, some ids =>
+      match fetchDocs bits fracs ids with
+      | .crash => "crash"
+      | .err => "err"
+      | .ok docs =>
+        s!"ok {fmtList (fun (d : Option Tok) => match d with
+          | none => "-"
+          | some t => s!"{t.1}.{t.2.1}.{t.2.2}") docs}"
+    | _, _, _ => "bad-op"
   | _ => "bad-op"
 
 def main : IO Unit := SV.Proto.main step
